@@ -338,6 +338,114 @@ inline double geo_tol(Real3 const& p)
     return 6e-8 * m;
 }
 
+//---------------------------------------------------------------------------//
+/*!
+ * Attribution of a path excursion to the "unflagged surface point" mechanism.
+ *
+ * The accepted substeps of a propagation are reconstructed from the two traces (a driver
+ * advance followed by move_internal / the final move_to_boundary).  For the substep that
+ * covers arc position \c s_excursion the criterion is, all evaluated on recorded data and
+ * the analytic geometry:
+ *  - its start point P lies within the geometry tolerance of a surface f that is a face of
+ *    the start volume, and the start volume is on exactly one side of f at P;
+ *  - the geometry was not on a surface when it searched from P (is_on_boundary() false);
+ *  - the straight chord it accepted ends on the far side of f by more than the tolerance.
+ * Then the geometry let a chord pass through a face it was sitting on (the zero-distance
+ * intersection is discarded), which is what produces the excursion; the chord tolerance
+ * has nothing to do with it.
+ */
+struct UnflaggedSurfaceTunnel
+{
+    bool found = false;
+    bool at_start = false;  // P is the start of the propagation (no accepted substep before)
+    int face = -1;
+    Real3 point{0, 0, 0};
+    double dist_to_face = 0;
+    double chord_end_beyond = 0;
+    double s_begin = 0, s_end = 0;
+};
+
+inline UnflaggedSurfaceTunnel find_unflagged_surface_tunnel(
+    Trace const& tr, RefLocator const& loc, int V0, Real3 const& end_pos, double distance, double s_excursion)
+{
+    UnflaggedSurfaceTunnel r;
+    double s = 0;
+    bool any_accepted = false;
+    for (std::size_t i = 0; i < tr.adv.size(); ++i)
+    {
+        std::size_t g0 = tr.adv[i].geo_index;
+        std::size_t g1 = i + 1 < tr.adv.size() ? tr.adv[i + 1].geo_index : tr.geo.size();
+        bool accepted = false, searched = false, on_surface = true;
+        Real3 target = end_pos;
+        double len = 0;
+        for (std::size_t g = g0; g < g1 && g < tr.geo.size(); ++g)
+        {
+            GeoEv const& e = tr.geo[g];
+            if (e.kind == 'F' && !searched)
+            {
+                searched = true;
+                on_surface = e.onb_before;
+            }
+            else if (e.kind == 'I' && searched && !accepted)
+            {
+                accepted = true;
+                target = e.arg;
+                len = tr.adv[i].out.step;
+            }
+            else if (e.kind == 'B' && searched && !accepted)
+            {
+                accepted = true;
+                target = end_pos;
+                len = std::max(0.0, distance - s);
+            }
+        }
+        if (!accepted)
+            continue;
+        double s0 = s, s1 = s + len;
+        s = s1;
+        bool first = !any_accepted;
+        any_accepted = true;
+        // generous slack: the reported distance and the true arc length differ by the
+        // tolerances discussed in judge_propagation; neighbouring substeps are tested too
+        double slack = 1e-6 * (1 + distance) + 0.01 * len;
+        if (s_excursion < s0 - slack || s_excursion > s1 + slack || on_surface)
+            continue;
+        Real3 const& P = tr.adv[i].in.pos;
+        P3 p = to_p3(P), t = to_p3(target);
+        double gt = geo_tol(P);
+        for (int fi : loc.volume(V0).faces)
+        {
+            RefSurface const& f = loc.surface(fi);
+            double sd = f.signed_distance(p);
+            if (!(std::fabs(sd) <= gt))
+                continue;
+            P3 n = f.normal(p);
+            double eps = 8 * gt;
+            P3 plus{p[0] + eps * n[0], p[1] + eps * n[1], p[2] + eps * n[2]};
+            P3 minus{p[0] - eps * n[0], p[1] - eps * n[1], p[2] - eps * n[2]};
+            bool in_plus = loc.inside(V0, plus), in_minus = loc.inside(V0, minus);
+            if (in_plus == in_minus)
+                continue;  // not a local boundary of the start volume
+            double sdt = f.signed_distance(t);
+            // far side = the side the start volume is not on
+            double beyond = in_plus ? -sdt : sdt;
+            if (beyond > geo_tol(target))
+            {
+                r.found = true;
+                r.at_start = first;
+                r.face = fi;
+                r.point = P;
+                r.dist_to_face = std::fabs(sd);
+                r.chord_end_beyond = beyond;
+                r.s_begin = s0;
+                r.s_end = s1;
+                return r;
+            }
+        }
+    }
+    return r;
+}
+
 inline Verdict judge_propagation(JudgeInput const& ji)
 {
     Verdict v;
@@ -546,6 +654,17 @@ inline Verdict judge_propagation(JudgeInput const& ji)
                 // (when it is done, set_dir immediately precedes the find_next_step that
                 // accepted the substep)
                 bool dir_set = gi >= 3 && tr.geo[gi - 2].kind == 'F' && tr.geo[gi - 3].kind == 'D';
+                // The substep that actually carried the track across the face is the first
+                // accepted one whose end is strictly outside the start volume (the allowance
+                // above only decides *whether* to report): the site is decided there.
+                for (std::size_t h = 0; h + 1 < gi; ++h)
+                {
+                    GeoEv const& eh = tr.geo[h];
+                    if (eh.kind != 'I' || in_volume(loc, V0, eh.arg, geo_tol(eh.arg)))
+                        continue;
+                    dir_set = h >= 2 && tr.geo[h - 1].kind == 'F' && tr.geo[h - 2].kind == 'D';
+                    break;
+                }
                 v.add("C08/escaped-volume/" + (dir_set ? sc : std::string("direction-not-updated")),
                       fmt("accepted substep end (%.17g, %.17g, %.17g) (geometry call #%zu) is outside start volume "
                           "%d (%s) by %.3g: a boundary was passed without being detected; outcome %s",
@@ -733,13 +852,32 @@ inline Verdict judge_propagation(JudgeInput const& ji)
                 double maxturn = 0;
                 for (auto const& a : tr.adv)
                     maxturn = std::max(maxturn, double(std::fabs(fr.omega)) * a.out.step);
-                v.add(std::string("C08/earlier-boundary/path-excursion/")
-                          + (maxturn > 3.0 ? "multi-turn-substep" : "short-substep"),
+                std::string site = maxturn > 3.0 ? "multi-turn-substep" : "short-substep";
+                std::string why;
+                UnflaggedSurfaceTunnel ut = find_unflagged_surface_tunnel(tr, loc, V0, ji.s1.pos, d, double(sw));
+                if (ut.found)
+                {
+                    // Mechanism of its own (not a chord-tolerance matter): the accepted substep
+                    // that covers the excursion started from a point that lies on a face of
+                    // the start volume (within the geometry tolerance) while the geometry
+                    // state was *not* on-surface, and its straight chord ends on the far side
+                    // of that face: the geometry let the chord pass through the face.
+                    // (keyed by mechanism only: the start class merely decides how the track got
+                    // onto the face)
+                    site = ut.at_start ? "tunnel-after-unflagged-surface-start" : "tunnel-after-unflagged-substep-end";
+                    why = fmt("; the accepted substep covering s in [%.9g, %.9g] starts at (%.17g, %.17g, %.17g), %.3g from "
+                              "face '%s' of the start volume with is_on_boundary()=false, and its chord ends %.3g "
+                              "beyond that face",
+                              ut.s_begin, ut.s_end, ut.point[0], ut.point[1], ut.point[2], ut.dist_to_face,
+                              loc.surface(ut.face).label.c_str(), ut.chord_end_beyond);
+                }
+                v.add("C08/earlier-boundary/" + (ut.found ? site : "path-excursion/" + site),
                       fmt("analytic path leaves start volume %d (%s) by %.3g at s=%.17Lg of %.17g (allowance %.3g = "
                           "1.1 delta_chord %.3g + delta_int + integration); R_perp %.3g, largest substep turn "
                           "angle %.3g, 2R_perp>delta_chord: %d",
                           V0, loc.volume(V0).label.c_str(), worst, sw, d, allow, o.delta_chord,
-                          rr * double(hx.sin_theta), maxturn, int(tight)));
+                          rr * double(hx.sin_theta), maxturn, int(tight))
+                          + why);
             }
         }
     }
